@@ -28,3 +28,6 @@ type Property struct {
 var Properties = map[string]*Property{}
 
 func register(p *Property) { Properties[p.ID] = p }
+
+// VerifDir is the /verif directory (set by the command), used to locate checker/testdata.
+var VerifDir string
